@@ -102,12 +102,14 @@ def gen_plans(rng, ref, classes, tier):
         for e in (rng.sample([13, 2, 21, 24], 1) if tier == "quick" else (13, 2, 21, 24)):
             plans.append([{"k": "openfail", "c": c, "a": e}])
         plans.append([{"k": "dirtarget", "c": c}])
+        if c in ("c", "lsp", "main", "h"):	# kinds the compiler refuses to overwrite when it did not generate them
+            plans.append([{"k": "foreign", "c": c, "a": rng.below(3)}])
     if "java" in classes:
         plans.append([{"k": "mkdirfail", "a": 13}])
         if tier != "quick":
             plans.append([{"k": "mkdirfail", "a": 28}])
     # subsets of outputs
-    singles = [p for p in plans if len(p) == 1 and p[0]["k"] not in ("dirtarget",) and p[0].get("c")]
+    singles = [p for p in plans if len(p) == 1 and p[0]["k"] not in ("dirtarget", "foreign") and p[0].get("c")]
     for _ in range(4 if tier == "quick" else 30):
         k = rng.range(2, 3)
         pick = rng.sample(singles, min(k, len(singles)))
@@ -126,7 +128,7 @@ def plan_lines(plan):
     for ev in plan:
         if ev["k"] == "mkdirfail":
             out.append("fs mkdirfail %d" % ev["a"])
-        elif ev["k"] == "dirtarget":
+        elif ev["k"] in ("dirtarget", "foreign"):
             pass
         else:
             out.append("fs %s %s %d" % (ev["k"], ev["c"], ev["a"]) + (" file %d" % ev["nth"] if ev.get("nth") else ""))
@@ -137,7 +139,17 @@ def run_plan(binfo, scratch, name, text, classes, plan, ref):
     w = scratch.new()
     pre = mk_outdir(classes)
     dirs = [ev["c"] for ev in plan if ev["k"] == "dirtarget"]
-    if dirs:
+    files, srcs = _files(name, text)
+    foreign = []
+    for ev in plan:
+        if ev["k"] == "foreign":	# the target exists already and was not written by the compiler
+            for rel in sorted(ref.files):
+                if worlds.cls_of(rel) != ev["c"]:
+                    continue
+                if ev.get("nth") and not os.path.basename(rel).startswith(srcs[ev["nth"] - 1][:-3]):
+                    continue
+                foreign.append((rel, ev.get("a", 0)))
+    if dirs or foreign:
         targets = [rel for rel in ref.files if worlds.cls_of(rel) in dirs]
 
         def pre(sb):
@@ -145,9 +157,16 @@ def run_plan(binfo, scratch, name, text, classes, plan, ref):
                 os.makedirs(os.path.join(sb, "out"), exist_ok=True)
             for rel in targets:
                 os.makedirs(os.path.join(sb, rel), exist_ok=True)
-    files, srcs = _files(name, text)
+            for rel, how in foreign:
+                p = os.path.join(sb, rel)
+                os.makedirs(os.path.dirname(p), exist_ok=True)
+                with open(p, "w") as f:
+                    f.write(FOREIGN[how])
     r = worlds.compile_world(binfo, w, files, flags(classes), srcs,
                              plan_extra=plan_lines(plan), cpu=60, pre=pre)
+    for rel, how in foreign:	# what the hand-written file held is not an output of the run
+        if r.files.get(rel) == FOREIGN[how].encode():
+            r.files.pop(rel, None)
     vsim.cleanup_world(w)
     return r
 
@@ -157,6 +176,7 @@ def judge(plan, r, ref):
     lg = vsim.parse_log(r.log)
     fired = [(k, c) for k, c, n in lg["faults"] if n > 0]
     dirt = [ev["c"] for ev in plan if ev["k"] == "dirtarget"]
+    foreign = [ev["c"] for ev in plan if ev["k"] == "foreign"]
     any_fired = bool(fired) or bool(dirt)
     fc = worlds.fault_class(r)
     if fc == "hang":
@@ -175,16 +195,19 @@ def judge(plan, r, ref):
         if any_fired:
             return "exit0-after-fault", "a write/close/open of an output failed (%s) but the compiler exited 0" % fired, fired
     else:
-        if not any_fired:
+        # a target that exists and was not generated by the compiler may be refused (with a
+        # diagnostic) or overwritten (then exit 0 needs complete outputs, checked above)
+        if not any_fired and not foreign:
             return "perturbed", "no fault fired but exit status %r differs from the fault-free run" % r.rc, fired
         if not worlds.has_diag(r):
             return "silent-refusal", "exit %r without an error diagnostic" % r.rc, fired
-    if not any_fired:
+    if not any_fired and not foreign:
         if r.rc != ref.rc or r.files != ref.files or r.out != ref.out:
             return "perturbed", "no fault fired but the run differs from the fault-free run", fired
     return None, "", fired
 
 
+FOREIGN = ["/* written by hand */\nint x;\n", "", "\0" * 64]
 EXT = {"ao": ".ao", "fm": ".fm", "c": ".c", "lsp": ".lsp", "asy": ".asy", "ap": ".ap", "ai": ".ai"}
 
 
@@ -235,8 +258,8 @@ def explicit_name_cases(binfo, scratch):
     vsim.cleanup_world(w)
     if ref.rc != 0:
         return [("reference-failed", (ref.out + ref.err)[-200:].decode("latin-1", "replace"), "aldor %s x.as" % " ".join(flags(classes)), "name-ref")]
-    for k in ("ai", "ap", "asy", "ao", "fm", "lsp", "c"):
-        alt = "alt" + EXT[k]
+    for k in ("ai", "ap", "asy", "ao", "fm", "lsp", "c", "main"):
+        alt = "alt" + EXT[k] if k != "main" else "altmain.c"
         fl = [("-F%s=%s" % (k, alt)) if c == k else worlds.OUT_FLAG[c] for c in classes]
         w = scratch.new()
         r = worlds.compile_world(binfo, w, {"x.as": worlds.HELLO}, fl, ["x.as"], cpu=60)
@@ -249,7 +272,7 @@ def explicit_name_cases(binfo, scratch):
         elif r.rc == 0:
             bad = []
             for rel, data in ref.files.items():
-                want = alt if rel == "x" + EXT[k] else rel
+                want = alt if rel == ("x" + EXT[k] if k != "main" else "x-aldormain.c") else rel
                 if want not in r.files:
                     bad.append(want + " not written")
                 elif r.files[want] != data:
@@ -259,6 +282,40 @@ def explicit_name_cases(binfo, scratch):
         elif not worlds.has_diag(r):
             verdict, detail = "silent-refusal", "exit %r without a diagnostic" % r.rc
         out.append((verdict, detail, desc, "name-" + k))
+    return out
+
+
+def mixed_input_cases(binfo, scratch):
+    """No injected fault: a saved form and a source in ONE invocation, in both orders; on exit 0
+    every requested kind must exist for the source unit (and those a saved form can give, for it)."""
+    out = []
+    y = b'#include "axllib"\nprint << "yo" << newline;\n'
+    kinds = ["ao", "fm", "c", "lsp", "java"]
+    for saved, order in (("ao", 0), ("ao", 1), ("fm", 0), ("fm", 1)):
+        w = scratch.new()
+        worlds.compile_world(binfo, w, {"x.as": worlds.HELLO}, ["-Fao", "-Ffm"], ["x.as"], cpu=60)
+        sb = os.path.join(w, "sb")
+        for f in os.listdir(sb):
+            if f not in ("x.as", "x." + saved):
+                os.unlink(os.path.join(sb, f))
+        os.unlink(os.path.join(sb, "x.as"))
+        srcs = ["x." + saved, "y.as"] if order == 0 else ["y.as", "x." + saved]
+        fl = [worlds.OUT_FLAG[c] for c in kinds]
+        r = worlds.compile_world(binfo, w, {"y.as": y}, fl, srcs, cpu=60)
+        vsim.cleanup_world(w)
+        desc = "aldor %s %s" % (" ".join(fl), " ".join(srcs))
+        verdict, detail = None, ""
+        fc = worlds.fault_class(r)
+        if fc:
+            verdict, detail = fc, (r.out + r.err)[-200:].decode("latin-1", "replace")
+        elif r.rc == 0:
+            want = ["y.ao", "y.fm", "y.c", "y.lsp", "aldorcode/y.java", "x.c", "x.lsp", "aldorcode/x.java"]
+            missing = [x for x in want if not r.files.get(x)]
+            if missing:
+                verdict, detail = "exit0-missing-output", "exit 0 but %s not written (have %s)" % (", ".join(missing), ", ".join(sorted(r.files)))
+        elif not worlds.has_diag(r):
+            verdict, detail = "silent-refusal", "exit %r without a diagnostic" % r.rc
+        out.append((verdict, detail, desc, "mixed-%s-%d" % (saved, order)))
     return out
 
 
@@ -331,7 +388,7 @@ def main(argv):
 
     with vsim.Scratch("c18") as scratch:
         if replay and "other_directory" in json.load(open(replay)):
-            od = [x for x in other_directory_cases(binfo, scratch) + explicit_name_cases(binfo, scratch) + error_count_cases(binfo, scratch) + odd_name_cases(binfo, scratch) if x[3] == json.load(open(replay))["other_directory"]]
+            od = [x for x in other_directory_cases(binfo, scratch) + explicit_name_cases(binfo, scratch) + error_count_cases(binfo, scratch) + odd_name_cases(binfo, scratch) + mixed_input_cases(binfo, scratch) if x[3] == json.load(open(replay))["other_directory"]]
             vsim.say("replay: %s" % [(v, d) for v, d, _, _ in od])
             if any(v for v, _, _, _ in od):
                 vsim.say("VIOLATION property=%s replay=%s" % (PID, replay))
@@ -397,6 +454,9 @@ def main(argv):
                                {"k": "closefail", "c": c, "a": 28, "nth": 2}, {"k": "openfail", "c": c, "a": 13, "nth": 2},
                                {"k": "enospc", "c": c, "a": rng.range(0, S - 1), "nth": 1}):
                         cases.append((pi, [ev]))
+                    if c in ("c", "lsp"):
+                        for nth in (1, 2):
+                            cases.append((pi, [{"k": "foreign", "c": c, "a": rng.below(3), "nth": nth}]))
                 cases.append((pi, []))
                 continue
             for plan in gen_plans(rng, ref, cl, tier):
@@ -433,9 +493,10 @@ def main(argv):
             for k, c in fired:
                 nm = ["enospc", "eio", "closefail", "openfail", "crash", "mkdirfail"][k]
                 fired_n[nm] = fired_n.get(nm, 0) + 1
-            if any(ev["k"] == "dirtarget" for ev in plan):
-                fired_n["dirtarget"] = fired_n.get("dirtarget", 0) + 1
-            if plan and (fired or any(ev["k"] == "dirtarget" for ev in plan)):
+            for kk in ("dirtarget", "foreign"):
+                if any(ev["k"] == kk for ev in plan):
+                    fired_n[kk] = fired_n.get(kk, 0) + 1
+            if plan and (fired or any(ev["k"] in ("dirtarget", "foreign") for ev in plan)):
                 distinct.add((pi, r.log_hash(), json.dumps(plan, sort_keys=True)))
 
         # determinism sample
@@ -484,11 +545,11 @@ def main(argv):
             out.violations.append({"key": key, "cls": v2, "detail": d2, "replay": rp})
 
         # ---- saved forms in another directory (independent expectation, no fault) -----------
-        od = other_directory_cases(binfo, scratch) + explicit_name_cases(binfo, scratch) + error_count_cases(binfo, scratch) + odd_name_cases(binfo, scratch)
+        od = other_directory_cases(binfo, scratch) + explicit_name_cases(binfo, scratch) + error_count_cases(binfo, scratch) + odd_name_cases(binfo, scratch) + mixed_input_cases(binfo, scratch)
         for verdict, detail, desc, kind in od:
             if not verdict:
                 continue
-            key = "%s:%s:%s" % (verdict, "explicit-name" if kind.startswith("name-") else "error-count" if kind.startswith("errors-") else "source-name" if kind.startswith("srcname-") else "other-directory-input", kind)
+            key = "%s:%s:%s" % (verdict, "explicit-name" if kind.startswith("name-") else "error-count" if kind.startswith("errors-") else "source-name" if kind.startswith("srcname-") else "mixed-inputs" if kind.startswith("mixed-") else "other-directory-input", kind)
             text = out.classify(key)
             if text is not None:
                 out.known.append({"key": key, "text": text})
